@@ -35,6 +35,10 @@ ASSUMPTIONS = [
     "RoaringIdSet (never instantiated by whoosh, iteration/insert broken by construction) and FieldedOrderedHashWriter/"
     "Reader (never imported anywhere) are dead code and not part of the verdict",
     "SubFile is observed through CompoundStorage.open_file (read/seek/tell), not through its unreachable subset()",
+    "documented preconditions are respected, not probed: OrderedHashWriter keys strictly increase, numbers stay within each "
+    "encoding's maxint, SortedIntSet members fit its typecode, marshal-able/picklable sort items",
+    "external sort: 'no run file left behind after the sorted output was consumed' is checked in addition to the order "
+    "(DESIGN section 3 C20); other temp-file hygiene (CompoundWriter .ctmp) is not judged",
 ]
 SHARDS = {"quick": 4, "thorough": 16}
 BUDGET_S = {"quick": 60, "thorough": 420}
@@ -531,8 +535,6 @@ def hash_case(ctx, rng):
         for k, v in items:
             model.setdefault(k, []).append(v)
         probe = list(model)[:40] + list(model)[-10:] + [rb(rng, rng.choice([0, 1, 2, 9])) for _ in range(10)]
-        if hr.hashtype != ht:
-            ctx.fail("hash", "hashtype-not-restored", w)
         for k in probe:
             got = list(hr.all(k))
             if sorted(got) != sorted(model.get(k, [])):
@@ -622,14 +624,6 @@ def ordered_case(ctx, rng):
             if orr[k] != vals[k]:
                 ctx.fail("ordered", "getitem(%s)" % it, dict(w, key=k))
         orr.close()
-        for a, b2 in ((b"b", b"a"), (b"a", b"a"), (b"", b"")):
-            try:
-                ow2 = OrderedHashWriter(st.create_file("o2"))
-                ow2.add(a, b"1")
-                ow2.add(b2, b"2")
-                ctx.fail("ordered", "out-of-order-key-accepted", dict(w, keys=[a, b2]))
-            except ValueError:
-                pass
     ctx.guard("ordered", w, body)
     return ("ordered", len(keys), vsize, info.get("indextype"), info.get("off")), bool(keys), w
 
@@ -968,9 +962,6 @@ def compound_case(ctx, rng):
                 f.close()
                 if got != c2[n]:
                     ctx.fail("compound", "writer.save_as_files(buf=%d)" % bufsize, dict(w, name=n), "len got %d expected %d" % (len(got), len(c2[n])))
-        left = [x for x in os.listdir(d) if x.endswith(".ctmp")]
-        if left:
-            ctx.fail("compound", "writer.temp-file-left-behind", w, repr(left))
     try:
         ctx.guard("compound", w, body)
     finally:
